@@ -63,7 +63,9 @@ func main() {
 	apiCampaign(o, r, m)
 	stackCampaign(o, r, m)
 	seededCases(r, m)
-	wireCampaign(r, m)
+	oneCharPatternCase(r)
+	geoCampaign(o, r, m)
+	wireCampaign(o, r, m)
 
 	r.ModelOps = len(m.Log)
 	r.Finish()
@@ -74,53 +76,96 @@ func main() {
 // ---------------------------------------------------------------------------
 
 type rule struct {
-	kind  byte // 'h' hosts-style, 'n' ||dom^, 'a' *
-	dom   string
-	allow bool
-	imp   bool
-	tsel  string // all | only | except
-	t     uint16
+	kind byte // 'h' hosts-style, 'n' network-style
+	// hosts-style: the names; ipStyle writes "0.0.0.0 name1 name2" instead of a bare name.
+	hosts   []string
+	ipStyle bool
+	// network-style: anchor 'd' (||), 's' (|), 'n' (none); body of literals, '*' and '^'; a final '|'.
+	anchor      byte
+	body        string
+	end         bool
+	allow       bool
+	imp         bool
+	perm, restr []uint16
 }
 
-var typeNames = map[uint16]string{dns.TypeA: "A", dns.TypeNS: "NS", dns.TypeTXT: "TXT", dns.TypeAAAA: "AAAA", dns.TypeHTTPS: "HTTPS"}
+var typeNames = map[uint16]string{dns.TypeA: "A", dns.TypeNS: "NS", dns.TypeTXT: "TXT", dns.TypeAAAA: "AAAA", dns.TypeHTTPS: "HTTPS",
+	dns.TypeMX: "MX"}
+
+// domRule is ||dom^ ; anyRule is *$dnstype=T.
+func domRule(dom string) rule { return rule{kind: 'n', anchor: 'd', body: dom + "^"} }
+func anyRule(t uint16) rule   { return rule{kind: 'n', anchor: 'n', body: "*", perm: []uint16{t}} }
 
 // text is the rule as it appears in the configuration.
 func (ru rule) text() string {
+	if ru.kind == 'h' {
+		if ru.ipStyle {
+			return "0.0.0.0 " + strings.Join(ru.hosts, " ")
+		}
+
+		return ru.hosts[0]
+	}
 	var mods []string
 	if ru.imp {
 		mods = append(mods, "important")
 	}
-	switch ru.tsel {
-	case "only":
-		mods = append(mods, "dnstype="+typeNames[ru.t])
-	case "except":
-		mods = append(mods, "dnstype=~"+typeNames[ru.t])
+	if len(ru.perm)+len(ru.restr) > 0 {
+		var ts []string
+		for _, t := range ru.perm {
+			ts = append(ts, typeNames[t])
+		}
+		for _, t := range ru.restr {
+			ts = append(ts, "~"+typeNames[t])
+		}
+		mods = append(mods, "dnstype="+strings.Join(ts, "|"))
 	}
-	suffix := ""
-	if len(mods) > 0 {
-		suffix = "$" + strings.Join(mods, ",")
-	}
-	pre := ""
+	t := ""
 	if ru.allow {
-		pre = "@@"
+		t = "@@"
 	}
-	switch ru.kind {
-	case 'h':
-		return ru.dom
-	case 'n':
-		return pre + "||" + ru.dom + "^" + suffix
-	default:
-		return pre + "*" + suffix
+	switch ru.anchor {
+	case 'd':
+		t += "||"
+	case 's':
+		t += "|"
 	}
+	t += ru.body
+	if ru.end {
+		t += "|"
+	}
+	if len(mods) > 0 {
+		t += "$" + strings.Join(mods, ",")
+	}
+
+	return t
+}
+
+func u16s(ts []uint16) string {
+	if len(ts) == 0 {
+		return "-"
+	}
+	var ss []string
+	for _, t := range ts {
+		ss = append(ss, fmt.Sprint(t))
+	}
+
+	return strings.Join(ss, ",")
+}
+
+func dash(s string) string {
+	if s == "" {
+		return "-"
+	}
+
+	return s
 }
 
 func (ru rule) args() string {
-	dom := ru.dom
-	if dom == "" {
-		dom = "-"
+	if ru.kind == 'h' {
+		return "h 0 0 - - n 0 " + strings.Join(ru.hosts, ",")
 	}
 
-	return fmt.Sprintf("%c %s %s %s %d %s", ru.kind, b2s(ru.allow), b2s(ru.imp), ru.tsel, ru.t, dom)
+	return fmt.Sprintf("n %s %s %s %s %c %s %s", b2s(ru.allow), b2s(ru.imp), u16s(ru.perm), u16s(ru.restr), ru.anchor, b2s(ru.end), dash(ru.body))
 }
 
 type pcfg struct {
@@ -379,24 +424,124 @@ func refHost(qname string) string {
 	return strings.ToLower(strings.TrimSuffix(qname, "."))
 }
 
+// refSepClass: a character the separator ^ does not accept (letters, digits and " .%_-").
+func refSepClass(c byte) bool {
+	return c >= 'a' && c <= 'z' || c >= 'A' && c <= 'Z' || c >= '0' && c <= '9' || strings.IndexByte(" .%_-", c) >= 0
+}
+
+// refBodyAt: can the body of the pattern be laid over host[from:] (a prefix of it, all of it with a
+// final '|')?  Dynamic programming over (token, position), written from the adblock syntax
+// documentation: '*' is any string, '^' is one separator character or the end of the name.
+func refBodyAt(body string, end bool, host string, from int) bool {
+	n, m := len(body), len(host)
+	// can[i][j]: body[i:] can be laid starting at host[j:].
+	can := make([][]bool, n+1)
+	for i := range can {
+		can[i] = make([]bool, m+1)
+	}
+	for j := 0; j <= m; j++ {
+		can[n][j] = !end || j == m
+	}
+	for i := n - 1; i >= 0; i-- {
+		for j := m; j >= 0; j-- {
+			switch c := body[i]; c {
+			case '*':
+				can[i][j] = can[i+1][j] || j < m && can[i][j+1]
+			case '^':
+				if j == m {
+					can[i][j] = can[i+1][m]
+				} else {
+					can[i][j] = !refSepClass(host[j]) && can[i+1][j+1]
+				}
+			default:
+				can[i][j] = j < m && strings.EqualFold(host[j:j+1], string(c)) && can[i+1][j+1]
+			}
+		}
+	}
+
+	return can[0][from]
+}
+
+// refPatternMatches: where the body may start is decided by the anchor: || at the beginning of the
+// name or after any dot that ends a non-empty run of name characters, | at the beginning, nothing
+// anywhere.
+func refPatternMatches(ru rule, host string) bool {
+	switch ru.anchor {
+	case 's':
+		return refBodyAt(ru.body, ru.end, host, 0)
+	case 'd':
+		if refBodyAt(ru.body, ru.end, host, 0) {
+			return true
+		}
+		for k := 0; k < len(host); k++ {
+			c := host[k]
+			if !(c >= 'a' && c <= 'z' || c >= 'A' && c <= 'Z' || c >= '0' && c <= '9' || c == '-' || c == '_' || c == '.') {
+				return false
+			}
+			if k >= 1 && c == '.' && refBodyAt(ru.body, ru.end, host, k+1) {
+				return true
+			}
+		}
+
+		return false
+	}
+	for k := 0; k <= len(host); k++ {
+		if refBodyAt(ru.body, ru.end, host, k) {
+			return true
+		}
+	}
+
+	return false
+}
+
+// refRuleValid: a network rule whose pattern text is shorter than three characters is refused as
+// too wide unless $dnstype restricts it.
+func refRuleValid(ru rule) bool {
+	if ru.kind == 'h' {
+		return true
+	}
+	l := len(ru.body)
+	switch ru.anchor {
+	case 'd':
+		l += 2
+	case 's':
+		l++
+	}
+	if ru.end {
+		l++
+	}
+
+	return l >= 3 || len(ru.perm)+len(ru.restr) > 0
+}
+
 func refRuleMatches(ru rule, host string, qt uint16) bool {
-	dom := strings.ToLower(ru.dom)
-	switch ru.kind {
-	case 'h':
-		return host == dom
-	case 'n':
-		if host != dom && !strings.HasSuffix(host, "."+dom) {
+	if ru.kind == 'h' {
+		for _, h := range ru.hosts {
+			if host == strings.ToLower(h) {
+				return true
+			}
+		}
+
+		return false
+	}
+	if !refRuleValid(ru) || !refPatternMatches(ru, host) {
+		return false
+	}
+	for _, t := range ru.restr {
+		if t == qt {
 			return false
 		}
 	}
-	switch ru.tsel {
-	case "only":
-		return qt == ru.t
-	case "except":
-		return qt != ru.t
+	if len(ru.perm) == 0 {
+		return true
+	}
+	for _, t := range ru.perm {
+		if t == qt {
+			return true
+		}
 	}
 
-	return true
+	return false
 }
 
 // refNameBlocked: the question matches a blocked-name rule in the adblock sense:
@@ -497,7 +642,7 @@ var v4pool = []string{"10.0.0.0/8", "10.1.0.0/16", "10.1.2.0/24", "10.1.2.128/25
 var v6pool = []string{"2001:db8::/32", "2001:db8:1::/48", "2001:db8:1::1/128", "2001:db8::/33", "fe80::/10",
 	"2001:db8:1:0:8000::/65", "2001:db8:1::5/64", "::ffff:10.1.2.0/120", "2001:db8:1::/127"}
 var asnPool = []geoip.ASN{0, 1, 42, 64512, 4294967295}
-var labelPool = []string{"a", "b", "ab", "test", "blk", "x-y", "www", "a1"}
+var labelPool = []string{"a", "b", "ab", "test", "blk", "x-y", "www", "a1", "z", "az9"}
 var qtypePool = []uint16{dns.TypeA, dns.TypeAAAA, dns.TypeNS, dns.TypeTXT, dns.TypeHTTPS, dns.TypeANY, dns.TypeMX}
 var ruleTypes = []uint16{dns.TypeA, dns.TypeAAAA, dns.TypeNS, dns.TypeTXT, dns.TypeHTTPS}
 
@@ -595,29 +740,99 @@ func genDom(rng *rand.Rand, minLabels int) string {
 	return d
 }
 
+// genTypes draws a $dnstype list: nothing, one permitted, one restricted, several, mixed.
+func genTypes(rng *rand.Rand) (perm, restr []uint16) {
+	t := func() uint16 { return ruleTypes[rng.IntN(len(ruleTypes))] }
+	switch rng.IntN(8) {
+	case 0:
+		return []uint16{t()}, nil
+	case 1:
+		return nil, []uint16{t()}
+	case 2:
+		return []uint16{t(), t()}, nil
+	case 3:
+		return nil, []uint16{t(), t()}
+	case 4:
+		return []uint16{t(), t()}, []uint16{t()}
+	}
+
+	return nil, nil
+}
+
 func genRule(rng *rand.Rand) (ru rule) {
-	ru.tsel = "all"
-	switch x := rng.IntN(10); {
-	case x < 3:
+	tld := func() string { return []string{"test", "ab", "blk", "www"}[rng.IntN(4)] }
+	switch x := rng.IntN(20); {
+	case x < 4:
 		// urlfilter takes a bare name for a hosts-style rule only if it is a domain name
 		// whose last label is alphabetic and at least two characters long; anything
-		// else would be a substring pattern, which is outside the grammar.
-		ru.kind, ru.dom = 'h', genDom(rng, 1)+"."+[]string{"test", "ab", "blk", "www"}[rng.IntN(4)]
+		// else would be a pattern.
+		ru.kind, ru.hosts = 'h', []string{genDom(rng, 1) + "." + tld()}
+		if rng.IntN(3) == 0 {
+			ru.ipStyle = true
+			for i := rng.IntN(3); i > 0; i-- {
+				ru.hosts = append(ru.hosts, genDom(rng, 1)+"."+tld())
+			}
+		}
 
 		return ru
-	case x < 9:
-		ru.kind, ru.dom = 'n', genDom(rng, 1)
+	case x < 11:
+		// ||dom^ : the classic.
+		ru = domRule(genDom(rng, 1))
+	case x < 12:
+		ru.kind, ru.anchor, ru.body = 'n', 'n', "*"
+		ru.perm = []uint16{ruleTypes[rng.IntN(len(ruleTypes))]}
 	default:
-		ru.kind = 'a'
+		// A free pattern: anchor, body pieces with wildcards and separators, end anchor.
+		ru.kind = 'n'
+		ru.anchor = "dsn"[rng.IntN(3)]
+		d := strings.ToLower(genDom(rng, 1))
+		switch rng.IntN(9) {
+		case 0:
+			ru.body = "*." + d + "^"
+		case 1:
+			ru.body = d
+		case 2:
+			ru.body = d + "."
+		case 3:
+			i := 1 + rng.IntN(len(d))
+			ru.body = d[:i] + "*" + d[i:]
+		case 4:
+			ru.body = d + "^*"
+		case 5:
+			ru.body = "." + d + "^"
+		case 6:
+			ru.body = d[:1] + "*" + labelPool[rng.IntN(len(labelPool))] + "^"
+		case 7:
+			// Short patterns: too wide without $dnstype.
+			// (A pattern of exactly one character other than "*" and "|" makes urlfilter panic
+			// when it is first matched: see oneCharPatternCase.)
+			ru.body = []string{"", "*", "a.", "a^", "ab", "^^", ".", "a*"}[rng.IntN(8)]
+			if ru.anchor == 'n' && ru.body == "." {
+				ru.end = true
+			}
+		default:
+			ru.body = d + "^"
+		}
+		ru.end = ru.end || rng.IntN(5) == 0
+	}
+	if ru.anchor == 's' && ru.body == "" && ru.end {
+		// "|" + "" + "|" would read as the anchor "||".
+		ru.anchor, ru.end = 'd', false
+	}
+	if tl := len(ru.body) + map[byte]int{'d': 2, 's': 1, 'n': 0}[ru.anchor] + map[bool]int{true: 1}[ru.end]; tl == 1 && ru.body != "*" && ru.body != "" {
+		// A pattern of exactly one character other than "*" and "|" makes urlfilter panic when
+		// it is first matched (oneCharPatternCase shows it): keep it out of the random runs.
+		ru.body += "^"
 	}
 	ru.allow = rng.IntN(4) == 0
 	ru.imp = rng.IntN(5) == 0
-	if ru.kind == 'a' || rng.IntN(3) == 0 {
-		ru.tsel = []string{"only", "except"}[rng.IntN(2)]
-		if ru.kind == 'a' && rng.IntN(3) > 0 {
-			ru.tsel = "only"
-		}
-		ru.t = ruleTypes[rng.IntN(len(ruleTypes))]
+	if len(ru.perm) == 0 {
+		ru.perm, ru.restr = genTypes(rng)
+	}
+	// A bare name would be read as a hosts-style rule, and so would anything that looks like one:
+	// give a pattern without any special character a modifier.
+	if ru.anchor == 'n' && !ru.end && !ru.allow && !strings.ContainsAny(ru.body, "*^") && !ru.imp && len(ru.perm)+len(ru.restr) == 0 {
+		ru.imp = true
 	}
 
 	return ru
@@ -708,10 +923,28 @@ func genName(rng *rand.Rand, rules []rule) string {
 	if rng.IntN(16) == 0 {
 		return "."
 	}
+	// Names made from the rules: a hosts-style name, or a pattern body with every '*' replaced by a
+	// few name characters and every '^' removed.
 	var doms []string
 	for _, ru := range rules {
-		if ru.dom != "" {
-			doms = append(doms, ru.dom)
+		if ru.kind == 'h' {
+			doms = append(doms, ru.hosts...)
+
+			continue
+		}
+		var b strings.Builder
+		for _, c := range ru.body {
+			switch c {
+			case '*':
+				b.WriteString([]string{"", "x", "a.b", ".", "zz"}[rng.IntN(5)])
+			case '^':
+			default:
+				b.WriteRune(c)
+			}
+		}
+		d := strings.Trim(b.String(), ".")
+		if d != "" && !strings.Contains(d, "..") {
+			doms = append(doms, d)
 		}
 	}
 	name := genDom(rng, 1)
@@ -891,8 +1124,13 @@ func newFixture(c *cfg, proto agd.Protocol) (f *fixture) {
 	for k, p := range c.profs {
 		f.profs = append(f.profs, newProfile(k, access.NewDefaultProfile(p.conf()), countingRL{&f.profRL}))
 	}
-	geo := agdtest.NewGeoIP()
-	geo.OnData = func(_ string, ip netip.Addr) (*geoip.Location, error) { return f.cur.geoFor(ip), nil }
+	fake := agdtest.NewGeoIP()
+	fake.OnData = func(_ string, ip netip.Addr) (*geoip.Location, error) { return f.cur.geoFor(ip), nil }
+	var geo geoip.Interface = fake
+	if geoOverride != nil {
+		// Campaign geo: the real geoip.File.
+		geo = geoOverride
+	}
 	mw := dnssvc.VerifC10NewMw(&dnssvc.VerifC10MwConfig{
 		Logger:           slogutil.NewDiscardLogger(),
 		Messages:         newMessages(),
@@ -972,6 +1210,8 @@ type obs struct {
 	riDev           agd.DeviceResult
 	riLoc           *geoip.Location
 	profRL, errColl int
+	// rlMetrics: events of the rate-limiting stage reported to the metrics.
+	rlMetrics int
 }
 
 // riString renders the request-dependent part of a request information.
@@ -1024,7 +1264,9 @@ func (f *fixture) serve(ctx context.Context, q *request) (o obs) {
 		defer func() { o.panicked = recover() }()
 		o.err = f.h.ServeDNS(ctx, rw, q.msg())
 	}()
-	o.resp, o.next, o.lim, o.hadRI = rw.Msg(), f.nextCalls, f.limCalls, f.nextHadRI
+	// Every method of the shared rate limiter counts: its counters are state other clients depend on.
+	o.resp, o.next, o.lim, o.hadRI = rw.Msg(), f.nextCalls, f.limCalls+f.countCalls, f.nextHadRI
+	o.rlMetrics = f.metrics.rateLimited + f.metrics.allowlisted + f.metrics.rlProfile
 	o.profRL, o.errColl = f.profRL, f.errColl
 	if f.nextRI != nil {
 		o.ri, o.riDev, o.riLoc = riString(f.nextRI), f.nextRI.DeviceResult, f.nextRI.Location
@@ -1098,6 +1340,10 @@ func judge(r *hlib.Result, campaign string, c *cfg, q *request, o *obs, replay f
 			r.Violate("blocked-request-answered:"+suffix+"+handler-error", fmt.Sprintf("%s: the property rejects this request (%s) but the "+
 				"handler returned an error, which the server answers with SERVFAIL: %v", campaign, v.class, o.err), replay())
 		}
+		if q.remote.Port() != 0 && o.rlMetrics != 0 {
+			r.Violate("blocked-request-left-trace:"+suffix+"+ratelimit-metrics", fmt.Sprintf("%s: the property rejects this request (%s) but the "+
+				"rate-limiting stage reported %d event(s) for it", campaign, v.class, o.rlMetrics), replay())
+		}
 		if o.profRL != 0 || o.errColl != 0 {
 			r.Violate("blocked-request-left-trace:"+suffix, fmt.Sprintf("%s: the property rejects this request (%s) but it left a trace: "+
 				"profile rate limiter calls %d, errors reported %d", campaign, v.class, o.profRL, o.errColl), replay())
@@ -1120,7 +1366,7 @@ func judge(r *hlib.Result, campaign string, c *cfg, q *request, o *obs, replay f
 			r.Violate("unblocked-request-dropped:"+suffix, fmt.Sprintf("%s: no rule rejects this request (%s) but it was not processed "+
 				"normally: next handler calls %d, response %v, request info in context %v, err %v", campaign, v.class, o.next,
 				o.resp != nil, o.hadRI, o.err), replay())
-		} else if want := refRI(q); o.ri != want || o.riLoc != q.loc {
+		} else if want := refRI(q); o.ri != want || o.riLoc != q.loc && geoOverride == nil {
 			r.Violate("unblocked-request-wrong-info:"+suffix, fmt.Sprintf("%s: the next stage received request information [host qtype "+
 				"qclass family addr asn ecs device] %q (location is the client's: %v), the request says %q", campaign, o.ri, o.riLoc == q.loc,
 				want), replay())
@@ -1243,13 +1489,13 @@ func tableCampaign(r *hlib.Result, m *hlib.Model) {
 
 			return []geoip.ASN{9}
 		}
-		c := &cfg{gnets: pick(gIP), grules: []rule{{kind: 'n', dom: "other.test", tsel: "all"}}}
+		c := &cfg{gnets: pick(gIP), grules: []rule{domRule("other.test")}}
 		if gName {
-			c.grules = append(c.grules, rule{kind: 'n', dom: "blk.test", tsel: "all"})
+			c.grules = append(c.grules, domRule("blk.test"))
 		}
 		p := &pcfg{an: pick(aNet), bn: pick(bNet), aa: asns(aASN), ba: asns(bASN)}
 		if pName {
-			p.rules = []rule{{kind: 'n', dom: "X.blk.test", tsel: "only", t: dns.TypeA}}
+			p.rules = []rule{{kind: 'n', anchor: 'd', body: "X.blk.test^", perm: []uint16{dns.TypeA}}}
 		}
 		c.profs = []*pcfg{p, {}}
 		var qs []*request
@@ -1511,7 +1757,7 @@ func runStackCase(r *hlib.Result, m *hlib.Model, rng *rand.Rand) {
 
 				return false, false, nil
 			},
-			OnCountResponses: func(context.Context, *dns.Msg, netip.Addr) {},
+			OnCountResponses: func(context.Context, *dns.Msg, netip.Addr) { limCalls++ },
 		},
 	})
 	lines := c.lines()
@@ -1672,10 +1918,10 @@ func runStackCase(r *hlib.Result, m *hlib.Model, rng *rand.Rand) {
 // ---------------------------------------------------------------------------
 
 func seededCases(r *hlib.Result, m *hlib.Model) {
-	any := func(t uint16) rule { return rule{kind: 'a', tsel: "only", t: t} }
+	any := anyRule
 	c := &cfg{
 		gnets:  []netip.Prefix{netip.MustParsePrefix("10.1.2.0/24")},
-		grules: []rule{any(dns.TypeNS), {kind: 'n', dom: "blk.test", tsel: "all"}},
+		grules: []rule{any(dns.TypeNS), domRule("blk.test")},
 		profs: []*pcfg{
 			{bn: []netip.Prefix{netip.MustParsePrefix("192.0.2.0/24")}, an: []netip.Prefix{netip.MustParsePrefix("192.0.2.1/32")},
 				ba: []geoip.ASN{42}, aa: []geoip.ASN{1}, rules: []rule{any(dns.TypeTXT)}},
@@ -1705,126 +1951,29 @@ func seededCases(r *hlib.Result, m *hlib.Model) {
 	runMwCase(r, m, "seeded", c, qs, agd.ProtoDNS)
 }
 
+
 // ---------------------------------------------------------------------------
-// Campaign wire: a real dnsserver.ServerDNS on a loopback UDP socket
+// Known finding: a one-character pattern makes urlfilter panic
 // ---------------------------------------------------------------------------
 
-// wireCampaign puts the real middleware behind a real plain-DNS server and
-// sends a handful of datagrams from 127.0.0.2 (globally blocked) and 127.0.0.1:
-// whatever the server does with the handler's result — in particular, answering
-// a returned error with SERVFAIL — is then part of what is observed.  Only
-// positive evidence counts: a datagram that arrives for a rejected request is a
-// violation; a datagram that does not arrive in time proves nothing and is
-// ignored, so scheduling and load cannot produce a false alarm.
-func wireCampaign(r *hlib.Result, m *hlib.Model) {
-	c := &cfg{
-		gnets:  []netip.Prefix{netip.MustParsePrefix("127.0.0.2/32")},
-		grules: []rule{{kind: 'n', dom: "blk.test", tsel: "all"}},
-		profs:  []*pcfg{{ba: []geoip.ASN{42}}, {}},
-	}
+const sigOneCharPattern = "panic:one-character-pattern-rule"
+
+// oneCharPatternCase: a network rule whose pattern is exactly one character other than "*" and "|"
+// (accepted by urlfilter when a $dnstype modifier restricts it) panics in rules.patternToRegexp
+// (regex[1:0]) the first time a request gets as far as matching the pattern.  With the exception rule
+// "@@a$dnstype=A" in a profile, a request that no rule rejects is not processed normally.
+func oneCharPatternCase(r *hlib.Result) {
+	c := &cfg{profs: []*pcfg{{rules: []rule{{kind: 'n', anchor: 'n', body: "a", allow: true, perm: []uint16{dns.TypeA}}}}, {}}}
 	f := newFixture(c, agd.ProtoDNS)
-	srv := dnsserver.NewServerDNS(dnsserver.ConfigDNS{
-		ConfigBase:     dnsserver.ConfigBase{Name: "verif-c10", Addr: "127.0.0.1:0", Handler: f.h, Network: dnsserver.NetworkUDP},
-		MaxUDPRespSize: dns.MaxMsgSize,
-	})
-	ctx := context.Background()
-	if err := srv.Start(ctx); err != nil {
-		r.Notes = append(r.Notes, "wire: could not start a loopback server, campaign skipped: "+err.Error())
-
-		return
+	q := &request{remote: netip.MustParseAddrPort("9.9.9.9:4000"), qname: "a.test.", qtype: dns.TypeA, dev: "ok:0"}
+	ob := f.serve(context.Background(), q)
+	v := refVerdict(c, q)
+	r.Count("onechar.cases")
+	if !v.blocked && ob.panicked != nil {
+		r.Violate(sigOneCharPattern, fmt.Sprintf("no rule rejects %q (the only rule is the exception %q) but the handler panicked instead of "+
+			"processing it: %v", q.line(), c.profs[0].rules[0].text(), ob.panicked),
+			map[string]any{"campaign": "onechar", "config": c.describe(), "request": q.line(), "ops": append(c.lines(), q.line())})
+	} else if !v.blocked && (ob.next != 1 || ob.resp == nil) {
+		r.Violate("unblocked-request-dropped:"+sigSuffix(v, q), "onechar: not processed normally", map[string]any{"config": c.describe(), "request": q.line()})
 	}
-	defer func() { _ = srv.Shutdown(ctx) }()
-	dst := srv.LocalUDPAddr().(*net.UDPAddr)
-	l := func(a geoip.ASN) *geoip.Location { return &geoip.Location{ASN: a} }
-	probes := []*request{
-		{remote: netip.MustParseAddrPort("127.0.0.2:0"), qname: "ok.test.", qtype: dns.TypeA, dev: "nil"},
-		{remote: netip.MustParseAddrPort("127.0.0.2:0"), qname: "ok.test.", qtype: dns.TypeA, dev: "err"},
-		{remote: netip.MustParseAddrPort("127.0.0.2:0"), qname: "ok.test.", qtype: dns.TypeA, dev: "nil", ecs: 2},
-		{remote: netip.MustParseAddrPort("127.0.0.1:0"), qname: "x.blk.test.", qtype: dns.TypeA, dev: "err"},
-		{remote: netip.MustParseAddrPort("127.0.0.1:0"), qname: "ok.test.", qtype: dns.TypeA, loc: l(42), dev: "ok:0", ecs: 2},
-		{remote: netip.MustParseAddrPort("127.0.0.1:0"), qname: "ok.test.", qtype: dns.TypeA, loc: l(42), dev: "err"},
-		{remote: netip.MustParseAddrPort("127.0.0.1:0"), qname: "ok.test.", qtype: dns.TypeA, loc: l(7), dev: "ok:0"},
-		{remote: netip.MustParseAddrPort("127.0.0.1:0"), qname: "ok.test.", qtype: dns.TypeA, dev: "err"},
-		{remote: netip.MustParseAddrPort("127.0.0.1:0"), qname: "ok.test.", qtype: dns.TypeA, dev: "nil", ecs: 2},
-	}
-	lines := c.lines()
-	pre := len(lines)
-	var seen [][]int
-	for _, q := range probes {
-		conn, err := net.ListenUDP("udp4", &net.UDPAddr{IP: q.remote.Addr().AsSlice()})
-		if err != nil {
-			r.Notes = append(r.Notes, "wire: cannot bind "+q.remote.Addr().String()+", campaign skipped: "+err.Error())
-
-			return
-		}
-		q.remote, q.packable = conn.LocalAddr().(*net.UDPAddr).AddrPort(), true
-		f.dev, f.loc, f.cur = f.devResult(q.dev), q.loc, q
-		buf, err := q.msg().Pack()
-		hlib.Must(err)
-		if q.ecs == 2 {
-			// Family 1, source prefix length 23, scope 0, address 198.51.100 -> 198.51.101.
-			buf = bytes.Replace(buf, []byte{0, 1, 23, 0, 198, 51, 100}, []byte{0, 1, 23, 0, 198, 51, 101}, 1)
-		}
-		_, err = conn.WriteToUDP(buf, dst)
-		hlib.Must(err)
-		v := refVerdict(c, q)
-		var rcodes []int
-		in := make([]byte, 4096)
-		// First datagram: wait generously when one is expected, briefly otherwise; any
-		// further ones follow immediately.
-		wait := 150 * time.Millisecond
-		if !v.blocked {
-			wait = 2 * time.Second
-		}
-		for {
-			_ = conn.SetReadDeadline(time.Now().Add(wait))
-			n, _, rerr := conn.ReadFromUDP(in)
-			if rerr != nil {
-				break
-			}
-			resp := &dns.Msg{}
-			if resp.Unpack(in[:n]) == nil {
-				rcodes = append(rcodes, resp.Rcode)
-			}
-			wait = 100 * time.Millisecond
-		}
-		_ = conn.Close()
-		line := q.line()
-		lines = append(lines, line)
-		seen = append(seen, rcodes)
-		r.Count("wire.requests")
-		if v.blocked {
-			r.Count("wire.ref.blocked." + v.class)
-			if len(rcodes) > 0 {
-				r.Violate("blocked-request-answered:"+sigSuffix(v, q)+"+wire", fmt.Sprintf("wire: the property rejects this request (%s) but %d "+
-					"datagram(s) came back from the real server, rcodes %v", v.class, len(rcodes), rcodes),
-					map[string]any{"campaign": "wire", "config": c.describe(), "request": line, "remote": q.remote.String(),
-						"ops": append(append([]string{}, lines[:pre]...), line)})
-			}
-		} else {
-			r.Count(fmt.Sprintf("wire.ref.unblocked.rcodes%v", rcodes))
-		}
-	}
-	// Correspondence, positive evidence only: a datagram is a disagreement when the
-	// model says the wire stays empty, or when its rcode is not one the model allows.
-	answers := m.Batch(lines)[pre:]
-	for j, rc := range seen {
-		allowed := map[int]bool{}
-		switch {
-		case strings.Contains(answers[j], " N "):
-			allowed[dns.RcodeSuccess] = true
-		case strings.Contains(answers[j], " F "):
-			allowed[dns.RcodeFormatError], allowed[dns.RcodeServerFailure] = true, true
-		case strings.HasSuffix(strings.SplitN(answers[j], " |", 2)[0], " 1"):
-			allowed[dns.RcodeServerFailure] = true
-		}
-		for _, x := range rc {
-			if !allowed[x] {
-				r.Disagree("wire", fmt.Sprintf("wire: real server sent rcode %d, model=%q for %q", x, answers[j], lines[pre+j]),
-					map[string]any{"campaign": "wire", "config": c.describe(), "ops": append(append([]string{}, lines[:pre]...), lines[pre+j])})
-			}
-		}
-	}
-	r.Case("wire;"+strings.Join(lines, ";"), true)
-	r.Traces++
 }
